@@ -201,6 +201,20 @@ def run_case(ctx, case):
             ctx.violation("c19_iteration_count", {"params": p, "first": n_a, "second": n_b})
         if len(set(got_names)) != len(got_names):
             ctx.violation("c19_name_reused", {"params": p, "names": got_names})
+        # an iteration abandoned half-way (break / next(iter(...))) followed by a new one
+        g4 = make(p)
+        taken = 0
+        for _ in g4:
+            taken += 1
+            if taken >= max(1, p["iteration_limit"] // 2):
+                break
+        n_c = len(list(g4))
+        it = iter(g4); next(it, None)
+        n_d = sum(1 for _ in g4)
+        ctx.count("abandoned_iterations")
+        if n_c != p["iteration_limit"] or n_d != p["iteration_limit"]:
+            ctx.violation("c19_iteration_count_after_abandoned_iteration",
+                          {"params": p, "after_break": n_c, "after_peek": n_d, "taken_before_break": taken})
     nontrivial = (isinstance(p["num_jobs"], list) and p["num_jobs"][0] != p["num_jobs"][1]) or \
         (isinstance(p["num_machines"], list) and p["num_machines"][0] != p["num_machines"][1]) or \
         not p["allow_less_jobs_than_machines"] or p["allow_recirculation"] or kr[1] > 1
